@@ -223,7 +223,11 @@ class _Stack:
 
     for i in range(0, 2 * n, 2):
       v_elt, k_elt = args[i], args[i + 1]
-      ret.add(k_elt, v_elt)
+      try:
+        ret.add(k_elt, v_elt)
+      except TypeError as e:
+        # We have some malformed code, e.g. {[]: 1}
+        raise ConstantError(f'TypeError: {e.args[0]}', op) from e
       k_elt.op.folded = op
       v_elt.op.folded = op
     return ret.build()
